@@ -230,6 +230,12 @@ def planMigrate (s : St) (g : GId) (n : Name) (target : WId) : Except MigErr Mig
 
 /-! ## commits -/
 
+/-- `w.assigned_pipelines.push(name); w.capacity.pipelines_running += 1` -/
+def Worker.push (n : Name) (w : Worker) : Worker := { w with assigned := w.assigned ++ [n], running := w.running + 1 }
+
+/-- remove one entry `name` from `assigned_pipelines`; `pipelines_running.saturating_sub(1)` -/
+def Worker.pop (n : Name) (w : Worker) : Worker := { w with assigned := w.assigned.erase n, running := w.running - 1 }
+
 structure DeployResult where
   replica : Name
   worker : WId
@@ -240,7 +246,7 @@ structure DeployResult where
 def commitResult (g : GId) (s : St) (r : DeployResult) : St :=
   if r.ok then
     (s.insertP { gid := g, name := r.replica, worker := r.worker, status := .running, hasId := true, epoch := 0 }).updW
-      r.worker fun w => { w with assigned := w.assigned ++ [r.replica], running := w.running + 1 }
+      r.worker (Worker.push r.replica)
   else
     s.insertP { gid := g, name := r.replica, worker := r.worker, status := .failed, hasId := false, epoch := 0 }
 
@@ -259,7 +265,7 @@ def planTeardown (s : St) (g : GId) : Option (List (Name × WId)) :=
 /-- one task of `commit_teardown_group` (the record leaves with its group at the end of the call;
 dropping it here gives the same final state) -/
 def teardownTask (g : GId) (s : St) (t : Name × WId) : St :=
-  let s1 := s.updW t.2 fun w => { w with assigned := w.assigned.erase t.1, running := w.running - 1 }
+  let s1 := s.updW t.2 (Worker.pop t.1)
   { s1 with placements := s1.placements.eraseP (PRec.hasKey g t.1) }
 
 /-- `Coordinator::commit_teardown_group` -/
@@ -281,8 +287,8 @@ source `−1` (`commit_migrate_pipeline` and step 4/5 of `migrate_pipeline`) -/
 def applyMigration (s : St) (p : MigPlan) : St :=
   let s1 := s.insertP { gid := p.gid, name := p.name, worker := p.target, status := .running, hasId := true,
                         epoch := p.epoch + 1 }
-  let s2 := s1.updW p.target fun w => { w with assigned := w.assigned ++ [p.name], running := w.running + 1 }
-  s2.updW p.source fun w => { w with assigned := w.assigned.erase p.name, running := w.running - 1 }
+  let s2 := s1.updW p.target (Worker.push p.name)
+  s2.updW p.source (Worker.pop p.name)
 
 /-- `Coordinator::commit_migrate_pipeline` -/
 def commitMigrate (s : St) (p : MigPlan) (success : Bool) : St :=
